@@ -444,7 +444,7 @@ class F:
         if any(n.kind in ("for", "loop") for n in g.nodes):
             raise ValueError("function has loops")
         self._rd()
-        keep = set(self._params) | set(self._mutated)
+        keep = set(self._mutated)  # (a re-bound parameter is a local from there on; before that it reads as itself)
         out = []
 
         class Sub(ast.NodeTransformer):
